@@ -73,6 +73,10 @@ type Recipe struct {
 	Opts     ParseOpts `json:"opts"`
 	Dims     int       `json:"dims,omitempty"`
 	Members  string    `json:"members,omitempty"`
+	// Style of the GeoJSON text handed to Parse (top-level recipe only):
+	// 0 compact, 1 whitespace everywhere, 2 "type" member last, 3 numbers in
+	// exponent notation, 4 = 1+2+3. The parsed value is the same in all styles.
+	Style    int       `json:"style,omitempty"`
 	Children []Recipe  `json:"children,omitempty"`
 	// Refs (Via == "share"): indices of EARLIER pool objects that this object
 	// wraps without copying (a child shared by two parents, as Tile38 does).
